@@ -475,7 +475,27 @@ pub fn programs_f0x(max_clauses: usize, coinductive: bool) -> Vec<Program> {
             let mut heads: Vec<&str> = p.iter().map(|r| r.head.tr.as_str()).collect();
             heads.sort();
             heads.dedup();
-            used.len() >= 4 && heads.len() == p.len()
+            if !(used.len() >= 4 && heads.len() == p.len()) {
+                return false;
+            }
+            // at least three atoms must depend on each other cyclically
+            let idx = |n: &str| traits.iter().position(|t| *t == n).unwrap();
+            let mut reach = [[false; 4]; 4];
+            for r in p {
+                for b in &r.body {
+                    reach[idx(&r.head.tr)][idx(&b.tr)] = true;
+                }
+            }
+            for k in 0..4 {
+                for i in 0..4 {
+                    for j in 0..4 {
+                        if reach[i][k] && reach[k][j] {
+                            reach[i][j] = true;
+                        }
+                    }
+                }
+            }
+            (0..4).any(|i| (0..4).filter(|j| *j != i && reach[i][*j] && reach[*j][i]).count() >= 2)
         })
         .filter(|p| {
             let me = canon(p);
